@@ -82,7 +82,7 @@ def run_shard(desc, R, tier):
 def eval_point(pt, R):
     """One data vector: all orders 1..pmax and all criteria."""
     import spectrum
-    x = np.asarray(pt['x'])
+    x = A.layout(pt, pt['x'])
     N = len(x)
     cplx = np.iscomplexobj(x)
     pmax = min(N - 2, 30)
@@ -112,7 +112,7 @@ def eval_point(pt, R):
         R.point(ptp)
         R.calls()
         try:
-            xin = x.copy()
+            xin = A.clone(x)       # keeps a strided view strided
             a, rho, k = spectrum.arburg(xin, p)
             a, k = np.asarray(a), np.asarray(k)
             R.check(np.array_equal(xin, x), 'input_unchanged', feats, ptp, xin, x, 'arburg modified its input array')
